@@ -13,7 +13,7 @@ def scenarios(ctx):
     rng = random.Random(ctx.seed * 4793 + 16)
     quick = ctx.quick()
     out = []
-    for i in range(4 if quick else 30):
+    for i in range(4 if quick else 80):
         steps = []
         for _ in range(24):
             st = F.random_request(rng, allow_fwd_in_conn=False)
